@@ -1,4 +1,192 @@
 import SdbModel.Model.Reconciler
-/-! # C16 — theorems under construction (see DESIGN.md section 4) -/
+
+/-!
+# C16 — Reconciler retry pacing and WaitUntilReconciled contract
+
+> A failed operation is retried, never sooner than the configured minimum
+> backoff after the failure, with waits that do not shrink over consecutive
+> failures of the same object and are capped by the configured maximum (…), and
+> the backoff starts over after the object changes or succeeds.
+> WaitUntilReconciled(rev) returns without error only after every change up to
+> rev has been attempted at least once, and the retry low-watermark it reports
+> is zero exactly when no failed object awaits retry, otherwise the revision of
+> the oldest change among the failed ones.
+
+Theorems over `Model.Reconciler` (backoff arithmetic over ℕ; the float64
+rounding of `exponentialBackoff.Duration` is in the trusted base).
+-/
 namespace Sdb
+open Rec
+
+/-! ## backoff -/
+
+theorem C16_backoff_le_max (minB maxB n : Nat) : backoff minB maxB n ≤ maxB := by
+  unfold backoff; simp only; split <;> omega
+
+theorem C16_backoff_ge_min (minB maxB n : Nat) (h : minB ≤ maxB) : minB ≤ backoff minB maxB n := by
+  unfold backoff; simp only
+  have : minB ≤ minB * 2 ^ n := Nat.le_mul_of_pos_right _ (Nat.pow_pos (by omega))
+  split <;> omega
+
+theorem C16_backoff_monotone (minB maxB n m : Nat) (h : n ≤ m) :
+    backoff minB maxB n ≤ backoff minB maxB m := by
+  unfold backoff; simp only
+  have hp : 2 ^ n ≤ 2 ^ m := Nat.pow_le_pow_right (by omega) h
+  have : minB * 2 ^ n ≤ minB * 2 ^ m := Nat.mul_le_mul_left _ hp
+  split <;> split <;> omega
+
+/-! ## retries.Add / Clear -/
+
+/-- the item `retryAdd` leaves in the map for `obj.id` -/
+theorem C16_retryAdd_item (r : R) (obj : RObj) (rev origRev : Nat) (del : Bool) :
+    ∃ it, (r.retryAdd obj rev origRev del).items.find? (·.id = obj.id) = some it ∧
+      it.inQueue = true ∧ it.inRevQueue = true ∧ it.origRev = origRev ∧
+      it.numRetries = (match r.items.find? (·.id = obj.id) with | some i => i.numRetries | none => 0) + 1 ∧
+      it.retryAt = r.now + backoff r.cfg.minB r.cfg.maxB it.numRetries := by
+  unfold R.retryAdd
+  simp only
+  refine ⟨{ id := obj.id, obj, rev, origRev, delete := del,
+            retryAt := r.now + backoff r.cfg.minB r.cfg.maxB ((match r.items.find? (·.id = obj.id) with | some i => i.numRetries | none => 0) + 1),
+            numRetries := (match r.items.find? (·.id = obj.id) with | some i => i.numRetries | none => 0) + 1,
+            inQueue := true, inRevQueue := true }, ?_, rfl, rfl, rfl, rfl, rfl⟩
+  rw [List.find?_append]
+  have : (List.filter (fun x => decide (x.id ≠ obj.id)) r.items).find? (fun x => decide (x.id = obj.id)) = none := by
+    rw [List.find?_eq_none]
+    intro x hx
+    simp at hx
+    simp [hx.2]
+  rw [this]
+  simp only [Option.none_or, List.find?_cons, decide_true]
+  rfl
+
+/-- never sooner than the minimum backoff, never later than the maximum -/
+theorem C16_retry_not_before_min (r : R) (obj : RObj) (rev origRev : Nat) (del : Bool)
+    (hcfg : r.cfg.minB ≤ r.cfg.maxB) :
+    ∃ it, (r.retryAdd obj rev origRev del).items.find? (·.id = obj.id) = some it ∧
+      r.now + r.cfg.minB ≤ it.retryAt ∧ it.retryAt ≤ r.now + r.cfg.maxB := by
+  obtain ⟨it, h1, _, _, _, _, h6⟩ := C16_retryAdd_item r obj rev origRev del
+  refine ⟨it, h1, ?_, ?_⟩
+  · rw [h6]; have := C16_backoff_ge_min r.cfg.minB r.cfg.maxB it.numRetries hcfg; omega
+  · rw [h6]; have := C16_backoff_le_max r.cfg.minB r.cfg.maxB it.numRetries; omega
+
+private theorem retryClear_items (r : R) (id : Nat) :
+    (r.retryClear id).items = r.items.filter (·.id ≠ id) := by
+  unfold R.retryClear
+  split
+  · rename_i h
+    rw [List.find?_eq_none] at h
+    symm
+    rw [List.filter_eq_self]
+    intro a ha
+    have := h a ha
+    simpa using this
+  · rfl
+
+/-- Clear forgets the object and its retry count: the backoff starts over -/
+theorem C16_backoff_resets_on_clear (r : R) (obj : RObj) (rev origRev : Nat) (del : Bool) :
+    ∃ it, ((r.retryClear obj.id).retryAdd obj rev origRev del).items.find? (·.id = obj.id) = some it ∧
+      it.numRetries = 1 := by
+  obtain ⟨it, h1, _, _, _, h5, _⟩ := C16_retryAdd_item (r.retryClear obj.id) obj rev origRev del
+  refine ⟨it, h1, ?_⟩
+  rw [h5, retryClear_items]
+  have : (List.filter (fun x => decide (x.id ≠ obj.id)) r.items).find? (fun x => decide (x.id = obj.id)) = none := by
+    rw [List.find?_eq_none]
+    intro x hx
+    simp at hx
+    simp [hx.2]
+  rw [this]
+
+/-- consecutive failures without a Clear: the retry count grows, so (by
+    `C16_backoff_monotone`) the wait does not shrink -/
+theorem C16_retry_count_grows (r : R) (obj : RObj) (rev origRev rev' origRev' : Nat) (del : Bool) :
+    ∃ it it', (r.retryAdd obj rev origRev del).items.find? (·.id = obj.id) = some it ∧
+      ((r.retryAdd obj rev origRev del).retryAdd obj rev' origRev' del).items.find? (·.id = obj.id) = some it' ∧
+      it'.numRetries = it.numRetries + 1 := by
+  obtain ⟨it, h1, _, _, _, _, _⟩ := C16_retryAdd_item r obj rev origRev del
+  obtain ⟨it', h1', _, _, _, h5', _⟩ := C16_retryAdd_item (r.retryAdd obj rev origRev del) obj rev' origRev' del
+  refine ⟨it, it', h1, h1', ?_⟩
+  rw [h5', h1]
+
+/-! ## the retry timer (retries.resetTimer) -/
+
+/-- after `resetTimer` the timer is armed exactly when the time queue is
+    non-empty, and then for the head's retry time -/
+theorem C16_timer_armed_iff_queue_nonempty (r : R) :
+    (∀ h, r.head = some h → r.resetTimer.timer = .armed h.retryAt) ∧
+    (r.head = none → r.resetTimer.timer = .none ∨ r.resetTimer.timer = .stopped) := by
+  unfold R.resetTimer newTimer
+  constructor
+  · intro h hh
+    simp only [hh]
+    cases r.timer <;> rfl
+  · intro hh
+    simp only [hh]
+    cases r.timer <;> simp
+
+/-! ## low watermark -/
+
+private theorem foldl_min_le (l : List Nat) (x : Nat) : l.foldl min x ≤ x ∧ ∀ y ∈ l, l.foldl min x ≤ y := by
+  induction l generalizing x with
+  | nil => simp
+  | cons a as ih =>
+    simp only [List.foldl_cons, List.mem_cons]
+    obtain ⟨h1, h2⟩ := ih (min x a)
+    refine ⟨by omega, ?_⟩
+    intro y hy
+    rcases hy with rfl | hy
+    · omega
+    · exact h2 y hy
+
+private theorem foldl_min_mem (l : List Nat) (x : Nat) : l.foldl min x = x ∨ l.foldl min x ∈ l := by
+  induction l generalizing x with
+  | nil => simp
+  | cons a as ih =>
+    simp only [List.foldl_cons, List.mem_cons]
+    rcases ih (min x a) with h | h
+    · rw [h]
+      rcases Nat.le_total x a with hxa | hxa
+      · left; omega
+      · right; left; omega
+    · right; right; exact h
+
+/-- the low-watermark is zero exactly when no failed object awaits retry
+    (revisions are positive), otherwise the smallest original revision among them -/
+theorem C16_low_watermark_def (r : R) (hpos : ∀ i ∈ r.items, 0 < i.origRev) :
+    (r.lowWatermark = 0 ↔ r.items.filter (·.inRevQueue) = []) ∧
+    (∀ i ∈ r.items.filter (·.inRevQueue), r.lowWatermark ≤ i.origRev) ∧
+    (r.items.filter (·.inRevQueue) ≠ [] → ∃ i ∈ r.items.filter (·.inRevQueue), r.lowWatermark = i.origRev) := by
+  unfold R.lowWatermark
+  generalize hq : r.items.filter (·.inRevQueue) = q
+  have hq' : ∀ i ∈ q, 0 < i.origRev := by
+    intro i hi; rw [← hq] at hi; exact hpos i (List.mem_filter.mp hi).1
+  cases q with
+  | nil => simp
+  | cons a as =>
+    simp only [List.map_cons]
+    obtain ⟨h1, h2⟩ := foldl_min_le (as.map (·.origRev)) a.origRev
+    have hm := foldl_min_mem (as.map (·.origRev)) a.origRev
+    refine ⟨⟨?_, by simp⟩, ?_, ?_⟩
+    · intro h0
+      rcases hm with hm | hm
+      · have := hq' a (List.mem_cons_self ..); omega
+      · rw [h0] at hm
+        simp only [List.mem_map] at hm
+        obtain ⟨i, hi, hi0⟩ := hm
+        have := hq' i (List.mem_cons_of_mem _ hi); omega
+    · intro i hi
+      simp only [List.mem_cons] at hi
+      rcases hi with rfl | hi
+      · exact h1
+      · exact h2 _ (List.mem_map_of_mem hi)
+    · intro _
+      rcases hm with hm | hm
+      · exact ⟨a, List.mem_cons_self .., hm⟩
+      · simp only [List.mem_map] at hm
+        obtain ⟨i, hi, hie⟩ := hm
+        exact ⟨i, List.mem_cons_of_mem _ hi, hie.symm⟩
+
+/-! ## non-vacuity -/
+example : backoff 100 1000 1 = 200 ∧ backoff 100 1000 4 = 1000 := by decide
+example : (({} : R).retryAdd { id := 1, data := 5, kind := .pending, sid := 1, other := 0, rev := 3 } 4 3 false).lowWatermark = 3 := by decide
+
 end Sdb
